@@ -221,12 +221,6 @@ theorem augmentData_typed (S O : List AElem) (stail otail : List J) (counts : Li
 
 /-! ### a second `augment_response` is a no-op -/
 
-theorem bind_eq_ok {α β : Type} {x : R α} {f : α → R β} {b : β} (h : (x >>= f) = .ok b) :
-    ∃ a, x = .ok a ∧ f a = .ok b := by
-  cases x with
-  | error e => simp at h
-  | ok a => exact ⟨a, rfl, by simpa using h⟩
-
 theorem setAt_length {data : List J} {p v : J} {d : List J} (h : setAt data p v = .ok d) :
     d.length = data.length := by
   cases p with
@@ -300,18 +294,20 @@ theorem augmentWrite_counts {resp elements r' : J} {data : List J}
   cases hres2k
   exact item_setKey_self _ _ _
 
-theorem augmentPlan_length {summary resp elements : J} {data : List J}
-    (h : augmentPlan summary resp = .ok (some (elements, data))) :
-    ∃ scounts, (item summary "result" >>= fun r => item r "counts") = .ok scounts ∧
+theorem augmentPlan_length {loads : String → R J} {summaryArg resp elements : J} {data : List J}
+    (h : augmentPlan loads summaryArg resp = .ok (some (elements, data))) :
+    ∃ summary scounts, cubeResponse loads summaryArg = .ok summary ∧
+      (item summary "result" >>= fun r => item r "counts") = .ok scounts ∧
       len scounts = .ok data.length := by
   unfold augmentPlan at h
+  obtain ⟨summary, hsum, h⟩ := bind_eq_ok h
   obtain ⟨res, _, h⟩ := bind_eq_ok h
   obtain ⟨counts, _, h⟩ := bind_eq_ok h
   obtain ⟨sres, hsres, h⟩ := bind_eq_ok h
   obtain ⟨scounts, hsc, h⟩ := bind_eq_ok h
   obtain ⟨n, _, h⟩ := bind_eq_ok h
   obtain ⟨sn, hsn, h⟩ := bind_eq_ok h
-  refine ⟨scounts, by simp [hsres, hsc], ?_⟩
+  refine ⟨summary, scounts, hsum, by simp [hsres, hsc], ?_⟩
   split at h
   · simp at h
   · obtain ⟨_, _, h⟩ := bind_eq_ok h
@@ -338,8 +334,9 @@ theorem augmentPlan_length {summary resp elements : J} {data : List J}
 
 /-- **`augment_response` twice = once**: the guard `len(counts) != len(summary counts)` is false
     after the first call -/
-theorem augmentDict_idem {summary resp r' : J} (h : augmentDict summary resp = .ok (some r')) :
-    augmentDict summary r' = .ok none := by
+theorem augmentDict_idem {loads : String → R J} {summary resp r' : J}
+    (h : augmentDict loads summary resp = .ok (some r')) :
+    augmentDict loads summary r' = .ok none := by
   unfold augmentDict at h
   obtain ⟨plan, hplan, h⟩ := bind_eq_ok h
   cases plan with
@@ -350,13 +347,13 @@ theorem augmentDict_idem {summary resp r' : J} (h : augmentDict summary resp = .
     obtain ⟨r'', hw, h⟩ := bind_eq_ok h
     simp only [R_pure, Except.ok.injEq, Option.some.injEq] at h
     subst h
-    obtain ⟨scounts, hsc, hlen⟩ := augmentPlan_length hplan
+    obtain ⟨summ, scounts, hsumm, hsc, hlen⟩ := augmentPlan_length hplan
     have hc := augmentWrite_counts hw
     obtain ⟨res', hres', hc⟩ := bind_eq_ok hc
     obtain ⟨sres, hsres, hsc⟩ := bind_eq_ok hsc
-    have : augmentPlan summary r'' = .ok none := by
+    have : augmentPlan loads summary r'' = .ok none := by
       unfold augmentPlan
-      simp only [hres', hc, hsres, hsc, R_bind_ok, hlen, show len (J.arr data) = Except.ok data.length from rfl,
+      simp only [hsumm, hres', hc, hsres, hsc, R_bind_ok, hlen, show len (J.arr data) = Except.ok data.length from rfl,
         if_true, R_pure]
     simp [augmentDict, this]
 
